@@ -127,6 +127,9 @@ func Gen(r *rng.R) *Case {
 		if r.Chance(1, 3) {
 			k = 1 + r.Intn(6)
 		}
+		if r.Chance(1, 12) {
+			k = 13 + r.Intn(10) // longer than the 12 elements up to which sort.Sort is a stable insertion sort
+		}
 		for i := 0; i < k; i++ {
 			c.Ranges = append(c.Ranges, genRange(r, c.Produces))
 		}
